@@ -15,6 +15,9 @@
 #include <boost/multi/adaptors/blas/asum.hpp>
 #include <boost/multi/adaptors/blas/iamax.hpp>
 #include <boost/multi/adaptors/blas/syrk.hpp>
+#include <boost/multi/adaptors/blas/trsm.hpp>
+#include <boost/multi/adaptors/blas/herk.hpp>
+#include <complex>
 #include <boost/multi/array_ref.hpp>
 namespace multi = boost::multi;
 #ifndef NB
@@ -28,7 +31,8 @@ using INT = long;   // MULTI_BLAS_INT is the pointer width in this build
 extern "C" {
 double g_ma[MSZ]; double g_mb[MSZ]; double g_mc[MSZ];
 long r_calls; char r_ta, r_tb; long r_m, r_n, r_k, r_lda, r_ldb, r_ldc, r_incx, r_incy; double const* r_a; double const* r_b; double* r_c; double r_alpha, r_beta;
-int r_which;
+int r_which; char r_side, r_diag;
+std::complex<double> g_za[MSZ]; std::complex<double> g_zc[MSZ]; std::complex<double> const* r_za; std::complex<double>* r_zc;
 void dgemm_(char const& ta, char const& tb, INT const& m, INT const& n, INT const& k, double const& alpha, double const* A, INT const& lda, double const* B, INT const& ldb, double const& beta, double const* C, INT const& ldc) {
   ++r_calls; r_which = 1; r_ta = ta; r_tb = tb; r_m = m; r_n = n; r_k = k; r_lda = lda; r_ldb = ldb; r_ldc = ldc; r_a = A; r_b = B; r_c = const_cast<double*>(C); r_alpha = alpha; r_beta = beta; }
 void dgemv_(char const& t, INT const& m, INT const& n, double const& alpha, double const* A, INT const& lda, double const* X, INT const& incx, double const& beta, double* Y, INT const& incy) {
@@ -42,6 +46,10 @@ double dnrm2_(INT const& n, double const* x, INT const& incx) { ++r_calls; r_whi
 double dasum_(INT const& n, double const* x, INT const& incx) { ++r_calls; r_which = 9; r_n = n; r_a = x; r_incx = incx; return 6.0; }
 void dsyrk_(char const& uplo, char const& t, INT const& n, INT const& k, double const& alpha, double const* A, INT const& lda, double const& beta, double* C, INT const& ldc) {
   ++r_calls; r_which = 11; r_ta = uplo; r_tb = t; r_n = n; r_k = k; r_a = A; r_lda = lda; r_c = C; r_ldc = ldc; r_alpha = alpha; r_beta = beta; }
+void dtrsm_(char const& side, char const& uplo, char const& t, char const& diag, INT const& m, INT const& n, double const& alpha, double const* A, INT const& lda, double const* B, INT const& ldb) {
+  ++r_calls; r_which = 12; r_side = side; r_ta = uplo; r_tb = t; r_diag = diag; r_m = m; r_n = n; r_alpha = alpha; r_a = A; r_lda = lda; r_c = const_cast<double*>(B); r_ldb = ldb; }
+void zherk_(char const& uplo, char const& t, INT const& n, INT const& k, double const& alpha, std::complex<double> const* A, INT const& lda, double const& beta, std::complex<double>* C, INT const& ldc) {
+  ++r_calls; r_which = 13; r_ta = uplo; r_tb = t; r_n = n; r_k = k; r_za = A; r_lda = lda; r_zc = C; r_ldc = ldc; r_alpha = alpha; r_beta = beta; }
 INT idamax_(INT const& n, double const* x, INT const& incx) { ++r_calls; r_which = 10; r_n = n; r_a = x; r_incx = incx; return 2; }   // 1-based position 2
 }
 static auto mk2(double* p, L s0, L s1, L n0, L n1) {
@@ -175,3 +183,105 @@ template<int LAYOUT> static void t_syrk() {   // C (n x n, triangle `side`) = al
 }
 #define S(LY) VF_HARNESS(syrk_l##LY) { t_syrk<LY>(); vf_reach("syrk_l" #LY); }
 S(0) S(1) S(2) S(3)
+
+// trsm: b := alpha * a^-1 * b (side left, a is m x m) or alpha * b * a^-1 (side right, a is n x n); b is m x n; a triangular in the user's `fill` triangle.
+// dtrsm(side', uplo', t', diag', m', n', alpha, A', lda, B', ldb) solves op(A') X = alpha B' (L) or X op(A') = alpha B' (R), B' m' x n' column-major.
+// Either B' = b (direct: side' = side, op(A') = a) or B' = b^T (transposed: side' = the other side, op(A') = a^T).
+template<int LAYOUT> static void t_trsm() {
+  L m = vf_range(1, NB); L n = vf_range(1, NB); L left = vf_range(0, 1); L na = left ? m : n;
+  L as0, as1, bs0, bs1; mat_layout_fixed((LAYOUT >> 1) & 1, na, na, as0, as1); mat_layout_fixed(LAYOUT & 1, m, n, bs0, bs1);
+  L oa = vf_range(0, 3); L ob = vf_range(0, 3); L up = vf_range(0, 1); L unitdiag = vf_range(0, 1);
+  auto A = mk2(g_ma + oa, as0, as1, na, na); auto B = mk2(g_mc + ob, bs0, bs1, m, n);
+  bool rejected = false;
+  try { multi::blas::trsm(left ? multi::blas::side::left : multi::blas::side::right, up ? multi::blas::filling::upper : multi::blas::filling::lower,
+                          unitdiag ? multi::blas::diagonal::unit : multi::blas::diagonal::non_unit, 2.0, A, B); } catch(...) { rejected = true; }
+  if(!rejected) {
+    vf_assert(r_calls == 1 && r_which == 12, "exactly one dtrsm call");
+    vf_assert((r_side == 'L' || r_side == 'R') && (r_ta == 'U' || r_ta == 'L') && (r_tb == 'N' || r_tb == 'T' || r_tb == 'C') && (r_diag == 'U' || r_diag == 'N'), "flags are valid");
+    vf_assert((r_diag == 'U') == (unitdiag != 0), "the diagonal flag is the user's");
+    vf_assert(r_m >= 1 && r_n >= 1 && r_ldb >= maxl(1, r_m) && r_lda >= maxl(1, r_side == 'L' ? r_m : r_n), "dimensions and leading dimensions satisfy the BLAS preconditions (else xerbla)");
+    vf_assert(r_alpha == 2.0 && r_c == g_mc + ob && r_a == g_ma + oa, "alpha unchanged, base pointers are the operands'");
+    L i = vf_range(0, NB - 1); L j = vf_range(0, NB - 1); vf_assume(i < m && j < n);
+    L p = vf_range(0, NB - 1); L q = vf_range(0, NB - 1); vf_assume(p < na && q < na);
+    L i2 = vf_range(0, NB - 1); L j2 = vf_range(0, NB - 1); vf_assume(i2 < m && j2 < n);
+    L p2 = vf_range(0, NB - 1); L q2 = vf_range(0, NB - 1); vf_assume(p2 < na && q2 < na);
+    // op(A')(r,c) lives at A' + (t'=='N' ? r + c*lda : c + r*lda); the stored A'(r,c) at r + c*lda is referenced iff uplo' covers (r,c)
+    bool Df = r_m == m && r_n == n && (r_side == 'L') == (left != 0)
+      && i + j * r_ldb == i * bs0 + j * bs1                                                      // B'(i,j) = b[i][j]
+      && (r_tb == 'N' ? p + q * r_lda : q + p * r_lda) == p * as0 + q * as1                        // op(A')(p,q) = a[p][q]
+      && (p == q || ((r_ta == 'U') == ((r_tb == 'N') ? p < q : q < p)) == (up ? p < q : p > q));   // the stored triangle holds the user's triangle
+    bool Tf = r_m == n && r_n == m && (r_side == 'L') == (left == 0)
+      && j2 + i2 * r_ldb == i2 * bs0 + j2 * bs1                                                  // B'(j,i) = b[i][j]
+      && (r_tb == 'N' ? q2 + p2 * r_lda : p2 + q2 * r_lda) == p2 * as0 + q2 * as1                  // op(A')(q,p) = a[p][q]
+      && (p2 == q2 || ((r_ta == 'U') == ((r_tb == 'N') ? q2 < p2 : p2 < q2)) == (up ? p2 < q2 : p2 > q2));
+    vf_assert(Df || Tf, "the recorded dtrsm arguments denote b(i,j), a(p,q) and the user's triangle for every index tuple (direct or transposed form)");
+  }
+}
+#define TR(LY) VF_HARNESS(trsm_l##LY) { t_trsm<LY>(); vf_reach("trsm_l" #LY); }
+TR(0) TR(1) TR(2) TR(3)
+
+// herk (complex): C (n x n, hermitian, user's triangle) = alpha*A*A^H + beta*C, A n x k.  zherk('N'): C'(r,c) = sum_l A'(r,l) conj(A'(c,l));
+// zherk('C'): C'(r,c) = sum_l conj(A'(l,r)) A'(l,c).  With A'(r,l) = A[r][l] the first is (A A^H)(r,c), so C' must be C; with A'(l,r) = A[r][l]
+// the second is (A A^H)(c,r), so C' must be C transposed.  ('T' is not a valid zherk flag.)  Unsupported layouts must be REJECTED (assert/throw).
+static auto mkz(std::complex<double>* p, L s0, L s1, L n0, L n1) {
+  multi::layout_t<1> l1(multi::layout_t<0>{}, s1, 0, s1 * n1);
+  return multi::subarray<std::complex<double>, 2>(multi::layout_t<2>(l1, s0, 0, s0 * n0), p);
+}
+template<int LAYOUT> static void t_herk() {
+  L n = vf_range(1, NB); L k = vf_range(1, NB);
+  L as0, as1, cs0, cs1; mat_layout_fixed((LAYOUT >> 1) & 1, n, k, as0, as1); mat_layout_fixed(LAYOUT & 1, n, n, cs0, cs1);
+  L oa = vf_range(0, 3); L oc = vf_range(0, 3); L up = vf_range(0, 1);
+  auto A = mkz(g_za + oa, as0, as1, n, k); auto C = mkz(g_zc + oc, cs0, cs1, n, n);
+  if(LAYOUT == 2) vf_reach("herk_l2");   // column-major A with row-major C is rejected (assert) for every size: the witness sits before the call
+  bool rejected = false;
+  try { multi::blas::herk(up ? multi::blas::filling::upper : multi::blas::filling::lower, 2.0, A, 3.0, std::move(C)); } catch(...) { rejected = true; }
+  if(!rejected) {
+    vf_assert(r_calls == 1 && r_which == 13, "exactly one zherk call");
+    vf_assert((r_ta == 'U' || r_ta == 'L') && (r_tb == 'N' || r_tb == 'C'), "flags are valid for zherk");
+    vf_assert(r_n == n && r_k == k, "n is the order of C and k the contracted extent of A");
+    vf_assert(r_lda >= (r_tb == 'N' ? maxl(1, r_n) : maxl(1, r_k)) && r_ldc >= maxl(1, r_n), "leading dimensions satisfy the BLAS preconditions (else xerbla)");
+    vf_assert(r_alpha == 2.0 && r_beta == 3.0 && r_zc == g_zc + oc && r_za == g_za + oa, "scalars unchanged, base pointers are the operands'");
+    L r = vf_range(0, NB - 1); L c = vf_range(0, NB - 1); L l = vf_range(0, NB - 1); vf_assume(r < n && c < n && l < k);
+    bool const N = r_tb == 'N';
+    vf_assert((N ? r + l * r_lda : l + r * r_lda) == r * as0 + l * as1, "the stored A' element that zherk reads as row r, column l of the factor is A[r][l]");
+    L i = N ? r : c; L j = N ? c : r;    // C'(r,c) must denote C[i][j]
+    vf_assert(r + c * r_ldc == i * cs0 + j * cs1, "C'(r,c) denotes (A A^H)'s element: C[r][c] for 'N', C[c][r] for 'C'");
+    bool blas_tri = r_ta == 'U' ? r <= c : r >= c;
+    if(r != c) vf_assert(blas_tri == (up ? i <= j : i >= j), "the triangle zherk updates is the triangle the user selected");
+  }
+}
+#define HK(LY) VF_HARNESS(herk_l##LY) { t_herk<LY>(); if(LY != 2) vf_reach("herk_l" #LY); }
+HK(0) HK(1) HK(2) HK(3)
+
+// herk with a conjugated factor: A = blas::H(a) (a is k x n) or blas::J(a) (a is n x k; element-wise conjugate).  General rule: zherk computes
+// C' = F F^H with F(r,l) = A'(r,l) ('N', tau = 0) or conj(A'(l,r)) ('C', tau = 1).  The address of F(r,l) must be the address of A(r,l); with sigma = 1
+// (the view conjugates what is stored) F = conj^(tau+sigma) A, so C' denotes C when tau == sigma and C transposed otherwise.
+template<int LAYOUT, int FORM> static void t_herk_conj() {   // FORM 0: H(a), 1: J(a)
+  L n = vf_range(1, NB); L k = vf_range(1, NB);
+  L ar = FORM == 0 ? k : n; L ac = FORM == 0 ? n : k;     // stored shape of a
+  L as0, as1, cs0, cs1; mat_layout_fixed((LAYOUT >> 1) & 1, ar, ac, as0, as1); mat_layout_fixed(LAYOUT & 1, n, n, cs0, cs1);
+  L oa = vf_range(0, 3); L oc = vf_range(0, 3); L up = vf_range(0, 1);
+  auto a = mkz(g_za + oa, as0, as1, ar, ac); auto C = mkz(g_zc + oc, cs0, cs1, n, n);
+  bool rejected = false;
+  try { if constexpr(FORM == 0) { multi::blas::herk(up ? multi::blas::filling::upper : multi::blas::filling::lower, 2.0, multi::blas::H(a), 3.0, std::move(C)); }
+        else { multi::blas::herk(up ? multi::blas::filling::upper : multi::blas::filling::lower, 2.0, multi::blas::J(a), 3.0, std::move(C)); } } catch(...) { rejected = true; }
+  if(!rejected) {
+    vf_assert(r_calls == 1 && r_which == 13, "exactly one zherk call");
+    vf_assert((r_ta == 'U' || r_ta == 'L') && (r_tb == 'N' || r_tb == 'C'), "flags are valid for zherk");
+    vf_assert(r_n == n && r_k == k, "n is the order of C and k the contracted extent of A");
+    vf_assert(r_lda >= (r_tb == 'N' ? maxl(1, r_n) : maxl(1, r_k)) && r_ldc >= maxl(1, r_n), "leading dimensions satisfy the BLAS preconditions (else xerbla)");
+    vf_assert(r_alpha == 2.0 && r_beta == 3.0 && r_zc == g_zc + oc && r_za == g_za + oa, "scalars unchanged, base pointers are the operands'");
+    L r = vf_range(0, NB - 1); L c = vf_range(0, NB - 1); L l = vf_range(0, NB - 1); vf_assume(r < n && c < n && l < k);
+    bool const N = r_tb == 'N';
+    L want = FORM == 0 ? l * as0 + r * as1 : r * as0 + l * as1;   // where A(r,l) is stored (conjugated)
+    vf_assert((N ? r + l * r_lda : l + r * r_lda) == want, "the stored element zherk reads as row r, column l of the factor is the one A(r,l) is stored in");
+    bool const direct = !N;                                         // sigma = 1: direct iff tau == 1
+    L i = direct ? r : c; L j = direct ? c : r;
+    vf_assert(r + c * r_ldc == i * cs0 + j * cs1, "C'(r,c) denotes the matching element of A A^H");
+    bool blas_tri = r_ta == 'U' ? r <= c : r >= c;
+    if(r != c) vf_assert(blas_tri == (up ? i <= j : i >= j), "the triangle zherk updates is the triangle the user selected");
+    vf_reach(FORM == 0 ? "herk_conj H accepted" : "herk_conj J accepted");
+  }
+}
+#define HC(LY) VF_HARNESS(herkH_l##LY) { t_herk_conj<LY, 0>(); } VF_HARNESS(herkJ_l##LY) { t_herk_conj<LY, 1>(); }
+HC(0) HC(1) HC(2) HC(3)
